@@ -103,3 +103,45 @@ func (db *Database) GetZSetRecord(key string) (*Record, *ZSet, error) {
 	}
 	return record, zset, nil
 }
+
+// LookupListRecord returns the list stored at the key without creating it.
+// It returns nil if the key does not exist.
+func (db *Database) LookupListRecord(key string) (*List, error) {
+	record, ok := db.GetRecord(key)
+	if !ok {
+		return nil, nil
+	}
+	list, ok := record.Data.(*List)
+	if !ok {
+		return nil, fmt.Errorf(errorInvalidStoredDataType, record.Data)
+	}
+	return list, nil
+}
+
+// LookupSetRecord returns the set stored at the key without creating it.
+// It returns nil if the key does not exist.
+func (db *Database) LookupSetRecord(key string) (*Set, error) {
+	record, ok := db.GetRecord(key)
+	if !ok {
+		return nil, nil
+	}
+	set, ok := record.Data.(*Set)
+	if !ok {
+		return nil, fmt.Errorf(errorInvalidStoredDataType, record.Data)
+	}
+	return set, nil
+}
+
+// LookupZSetRecord returns the sorted set stored at the key without creating it.
+// It returns nil if the key does not exist.
+func (db *Database) LookupZSetRecord(key string) (*ZSet, error) {
+	record, ok := db.GetRecord(key)
+	if !ok {
+		return nil, nil
+	}
+	zset, ok := record.Data.(*ZSet)
+	if !ok {
+		return nil, fmt.Errorf(errorInvalidStoredDataType, record.Data)
+	}
+	return zset, nil
+}
